@@ -168,6 +168,11 @@ func oneFactorLayouts() []gen.Layout {
 	mod(func(l *gen.Layout) { l.PipeStyle = 1 })
 	mod(func(l *gen.Layout) { l.PipeStyle = 2 })
 	mod(func(l *gen.Layout) { l.PipeStyle = 3 })
+	mod(func(l *gen.Layout) { l.DashStyle = 1 })
+	mod(func(l *gen.Layout) { l.Multi = true; l.DashStyle = 2 })
+	mod(func(l *gen.Layout) { l.Multi = true; l.DashStyle = 3 })
+	mod(func(l *gen.Layout) { l.Multi = true; l.DashStyle = 2; l.NL = "\r\n" })
+	mod(func(l *gen.Layout) { l.Comments = 1; l.NL = "\r" })
 	return out
 }
 
